@@ -7,6 +7,7 @@ CONSTANTS
   CtsModes = {"none", "v0", "v1neg"}
   TfdtVs = {0, 1}
   TrexPerTrack = FALSE
+  MdatFirsts = {FALSE}
   Deliveries = {"one", "split"}
 INVARIANT Emit
 CHECK_DEADLOCK FALSE
